@@ -69,6 +69,9 @@ type ScnCfg struct {
 	// component of the scenario (so with a different set of names); the lookups - which create the lazy components of the
 	// scenario's App - come after it and must not see anything of it
 	Later bool `json:"later"`
+	// after the lookups, Factory.GetComponents() is called without options: every component, in name order, through
+	// the same doGetComponent as a lookup by name (the lazy ones are created by it)
+	Bulk bool `json:"bulk"`
 }
 
 type Event struct {
@@ -482,6 +485,8 @@ type Result struct {
 	Trace    []TrEv      `json:"trace"`           // registry calls during Run
 	TraceAft []TrEv      `json:"traceaft"`        // registry calls during the lookups
 	First    *Result     `json:"first,omitempty"` // the first start, when a second start on the same instances differed from it
+	Bulk     []LookupObs `json:"bulk"`            // GetComponents(): one token per component, or a single err / panic entry
+	BulkDone bool        `json:"bulkdone"`
 }
 
 // ---- registry tracer -------------------------------------------------------------------------------------
@@ -747,6 +752,7 @@ func RunScenario(cfg *ScnCfg) (res Result) {
 	// instances that the second start would then see already set
 	c1 := *cfg
 	c1.Lookups = nil
+	c1.Bulk = false
 	res = runOnce(&c1, s, insts)
 	if res.Outcome == "ok" || res.Outcome == "err" {
 		// a second container over the same instances (ioc.Register + repeated ioc.Run): nothing of the first start may
@@ -870,6 +876,20 @@ func runOnce(cfg *ScnCfg, s *Scn, insts []any) (res Result) {
 				lo.Tok = s.token(reflect.ValueOf(c))
 			})
 			res.Lookups = append(res.Lookups, lo)
+		}
+		if cfg.Bulk {
+			res.BulkDone = true
+			var all []any
+			var berr error
+			if p := guard(func() { all, berr = a.GetComponents() }); p != "" {
+				res.Bulk = []LookupObs{{Name: "*", Tok: Token{-1, -1}, Pan: p}}
+			} else if berr != nil {
+				res.Bulk = []LookupObs{{Name: "*", Tok: Token{-1, -1}, Err: true}}
+			} else {
+				for _, c := range all {
+					res.Bulk = append(res.Bulk, LookupObs{Name: "*", Tok: s.token(reflect.ValueOf(c))})
+				}
+			}
 		}
 		res.LogAfter = append([]Event{}, s.Log[mark:]...)
 	}
